@@ -3,7 +3,8 @@ Tie C: the real Prover (IsValid/Add/CreateProof) and Verifier.Verify on real par
 keys, random signing subsets around the proven-weight threshold and single-field mutations of the valid proofs, against
 Model.StateProof instantiated with ideal primitives (symbolic signatures, binding vector commitments, the coin XOF as
 the table of coins the REAL generator produced).  The monitor evaluates the property on the implementation's verdicts
-alone: honest proofs verify; every single-field mutation is rejected."""
+alone: honest proofs verify; every single-field mutation is rejected.  A second stream drives the real
+stateproof/verify.ValidateStateProof / AcceptableStateProofWeight (ledger context) against Model.StateProof.validateStateProof."""
 import common
 
 T, PREC, MAXR = 45427, 16, 640     # ln2IntApproximation, precisionBits, MaxReveals (C38's `consts` op re-reads them from the tree)
@@ -108,7 +109,8 @@ def monitor(op, impl):
         if create != "ok":
             return None
         verdict = r.get("verify", "")
-        nr = (N_ := _nd(sw, o["lnpw"], o["st"]))[0] // N_[1] + 1
+        N, D = _nd(sw, o["lnpw"], o["st"])
+        nr = N // D + 1
         pos = [_slot_of(slots, c) for c in o["coins"][:nr]]
         k = m[0]
         must = False
@@ -140,7 +142,79 @@ def monitor(op, impl):
     return None
 
 
+M64 = 1 << 64
+
+
+def _muldiv(a, b, c):
+    if c == 0 or a * b // c >= M64:
+        return None
+    return a * b // c
+
+
+def _acceptable(total, ivl, thr, last, first):
+    """calculateAcceptableStateProofWeight, re-stated"""
+    half = ivl // 2
+    off = max(first - last, 0)
+    if off == 0:
+        return total
+    off = max(off - half, 0)
+    if off == 0:
+        return total
+    pw = _muldiv(total, thr, 1 << 32)
+    if pw is None or pw > total:
+        return 0
+    if off >= half:
+        return pw
+    sc = _muldiv(total - pw, half - off, half)
+    if sc is None or pw + sc >= M64:
+        return 0
+    return pw + sc
+
+
+def monitor_ledger(op, impl):
+    """ValidateStateProof accepts only what the ledger context allows, and accepts the honest proof in its context."""
+    try:
+        f = op.split()
+        d = dict(kv.split("=", 1) for kv in f[1:])
+        if impl.startswith("PANIC"):
+            return "the implementation panicked"
+        if f[0] == "accw":
+            total, thr, ivl, hdr, first = (int(d[k]) for k in ("total", "thr", "ivl", "hdr", "first"))
+            r = int(impl)
+            if thr < (1 << 32) and not (total * thr >> 32) <= r <= total:
+                return "acceptable weight %d outside [proven weight %d, total %d]" % (r, total * thr >> 32, total)
+            if r != _acceptable(total, ivl, thr, hdr + ivl, first):
+                return "acceptable weight %d is not the ramp value %d" % (r, _acceptable(total, ivl, thr, hdr + ivl, first))
+            return None
+        if f[0] != "vsp":
+            return None
+        r = parse_res(impl)
+        if r.get("create") != "ok":
+            return None
+        o = parse_op("sp " + " ".join(kv for kv in f[1:] if kv.split("=")[0] in
+                                      ("msg", "rnd", "pw", "lnpw", "st", "life", "parts", "signers", "coins", "mcoins")) + " mut=none")
+        _, sw = _slots(o)
+        total, thr, ivl, last, at, vmsg = (int(d[k]) for k in ("total", "thr", "ivl", "last", "at", "vmsg"))
+        pw = _muldiv(total, thr, 1 << 32)
+        structural = ivl != 0 and last % ivl == 0 and sw >= _acceptable(total, ivl, thr, last, at) and pw not in (None, 0)
+        same_stmt = vmsg == o["msg"] and o["life"] != 0 and last // o["life"] == o["rnd"] // o["life"]
+        v = r.get("validate", "")
+        if v == "ok" and not (structural and same_stmt):
+            return "ValidateStateProof accepts outside its ledger context (ivl=%d last=%d at=%d signed=%d acceptable=%d msg %d/%d)" % (
+                ivl, last, at, sw, _acceptable(total, ivl, thr, last, at) if ivl else -1, vmsg, o["msg"])
+        if v != "ok" and structural and same_stmt and pw == o["pw"]:
+            return "ValidateStateProof rejects the honest proof in its own ledger context: %s" % v
+    except (ValueError, IndexError, KeyError, ZeroDivisionError):
+        return "unparsable implementation output %r for %r" % (impl[:80], op[:80])
+    return None
+
+
 def trivial(op):
+    if op.startswith("accw "):
+        return " ivl=0 " in op or " total=0 " in op
+    if op.startswith("vsp "):
+        op = "sp " + " ".join(kv for kv in op.split()[1:] if kv.split("=")[0] in
+                              ("msg", "rnd", "pw", "lnpw", "st", "life", "parts", "signers", "coins", "mcoins")) + " mut=none"
     o = parse_op(op)
     if o is None:
         return True
@@ -149,6 +223,8 @@ def trivial(op):
 
 
 def kind_of(op):
+    if not op.startswith("sp "):
+        return op.split(" ", 1)[0]
     i = op.find(" mut=")
     return "mut:" + op[i + 5:].split(" ", 1)[0].split(":", 1)[0] if i >= 0 else "?"
 
@@ -175,11 +251,31 @@ def run(ctx, replay_ops=None):
                        "below the signed weight x strength target in {0..256}; per case the honest proof plus ~45 single-field mutations "
                        "(message, round, signature bytes / key / salt, slot L, reveal swap, participant weight / key / lifetime, SignedWeight, "
                        "SigCommit / participants commitment / proof path / tree depth, positions edits incl. coins on slot boundaries, salt version, "
-                       "reveals map edits); an op is trivial when no proof can be built (signed weight <= proven weight or proven weight 0); "
-                       "distinct = distinct op lines")
-    res = common.correspondence(ctx, pkg="./crypto/stateproof", test="TestVerifC39", name="c39", drivers=[("c39", [], "model")],
-                                trivial=trivial, kind_of=kind_of, env=env, model_is_spec=False, monitor=monitor,
-                                what="state-proof prover/verifier outcome differs from the proved model", replay_ops=replay_ops)
+                       "reveals map edits); second stream: the real ValidateStateProof on honest proofs whose message is stateproofmsg.Message.Hash(), "
+                       "with the ledger context varied (validation round across the acceptable-weight ramp, interval 0 / non-dividing, attested round "
+                       "off the grid or in another key period, other message, other total weight / threshold) and AcceptableStateProofWeight on "
+                       "boundary-biased operands; an op is trivial when no proof can be built (signed weight <= proven weight or proven weight 0) "
+                       "or the acceptable-weight operands are degenerate; distinct = distinct op lines")
+    sp_ops = led_ops = None
+    if replay_ops is not None:
+        sp_ops = [o for o in replay_ops if o.startswith("sp ")]
+        led_ops = [o for o in replay_ops if not o.startswith("sp ")]
+    res = None
+    if replay_ops is None or sp_ops:
+        res = common.correspondence(ctx, pkg="./crypto/stateproof", test="TestVerifC39", name="c39", drivers=[("c39", [], "model")],
+                                    trivial=trivial, kind_of=kind_of, env=env, model_is_spec=False, monitor=monitor,
+                                    what="state-proof prover/verifier outcome differs from the proved model", replay_ops=sp_ops)
+    if replay_ops is None or led_ops:
+        resl = common.correspondence(ctx, pkg="./crypto/stateproof", test="TestVerifC39Ledger", name="c39l", drivers=[("c39", [], "model")],
+                                     trivial=trivial, kind_of=kind_of, env=env, model_is_spec=False, monitor=monitor_ledger,
+                                     what="ValidateStateProof / AcceptableStateProofWeight outcome differs from the proved model", replay_ops=led_ops)
+        if resl:
+            lv = {}
+            for o, a in zip(resl[0], resl[1]):
+                if o.startswith("vsp "):
+                    k = parse_res(a).get("validate") or ("create=" + parse_res(a).get("create", "?"))
+                    lv[k] = lv.get(k, 0) + 1
+            ctx.cov["distribution"]["ledger_validate_verdicts"] = lv
     if res:
         ops, impl, _ = res
         br, honest_ok, rejected, accepted_legit = {}, 0, 0, 0
